@@ -348,6 +348,19 @@ def install():
             m.queue = shim_queue
 
 
+def uninstall():
+    """give the scheduler's modules their real `threading` / `queue` back"""
+    import scheduler.base.job_timer as m1
+    import scheduler.threading.job as m2
+    import scheduler.threading.scheduler as m3
+
+    for m in (m1, m2, m3):
+        if hasattr(m, "threading"):
+            m.threading = _real_threading
+        if hasattr(m, "queue"):
+            m.queue = _real_queue
+
+
 # ---------------------------------------------------------------- choosers
 def random_chooser(rng):
     def choose(tids, ctrl):
